@@ -292,3 +292,94 @@ def open_endpoint(role, opts=None, compress=False, start=0.0, trailing=b"", **kw
     if on and ep.proto._perMessageCompress is None:
         raise RuntimeError("harness: compression was not negotiated")
     return ep
+
+
+class Pair:
+    """real client + real server of the worker's framework joined by an
+    explicit wire; nothing moves unless the harness moves it"""
+
+    def __init__(self, copts=None, sopts=None, compress=None, server_compress=None,
+                 start=0.0, chooks=None, shooks=None, url="ws://localhost:9000",
+                 protocols=None, sprotocols=None):
+        self.envobj = new_env(start)
+        E = envmod()
+        sc = compress if server_compress is None else server_compress
+        self.sf = make_factory("server", self.envobj, sopts, url, sprotocols or protocols, None, sc)
+        self.cf = make_factory("client", self.envobj, copts, url, protocols, None, compress)
+        self.s = E.Conn(self.sf, True, self.envobj)
+        self.c = E.Conn(self.cf, False, self.envobj)
+        for conn, hooks in ((self.s, shooks), (self.c, chooks)):
+            conn.proto.rec = []
+            conn.proto.hooks = hooks or {}
+        self.s.connect()
+        self.c.connect()
+        self.wire = {"c2s": bytearray(), "s2c": bytearray()}   # in flight
+        self.log = {"c2s": bytearray(), "s2c": bytearray()}    # everything ever written
+
+    def side(self, name):
+        return self.c if name == "client" else self.s
+
+    def collect(self):
+        """move freshly written octets onto the wire"""
+        for conn, d in ((self.c, "c2s"), (self.s, "s2c")):
+            w = conn.transport.take()
+            if w:
+                self.wire[d] += w
+                self.log[d] += w
+
+    def settle(self):
+        self.c.settle()
+        self.collect()
+
+    def deliver(self, direction, n=None, settle=True):
+        """deliver the first n in-flight octets of a direction (all if None)"""
+        self.collect()
+        buf = self.wire[direction]
+        if n is None or n > len(buf):
+            n = len(buf)
+        if n == 0:
+            return 0
+        seg = bytes(buf[:n])
+        del buf[:n]
+        dst = self.s if direction == "c2s" else self.c
+        if fwname() == "tx":
+            dst.feed(seg)
+        else:
+            dst.feed(seg, settle)
+        self.collect()
+        return n
+
+    def pump(self, limit=50):
+        """deliver everything in both directions until quiescent"""
+        for _ in range(limit):
+            self.settle()
+            if not self.wire["c2s"] and not self.wire["s2c"]:
+                return
+            self.deliver("c2s")
+            self.deliver("s2c")
+        raise RuntimeError("harness: wire does not go quiescent")
+
+    def flush_timers(self, horizon=1.0, step=0.00002, maxsteps=200000):
+        """let chopped / synced writes (send_queue + call_later) drain"""
+        n = 0
+        while n < maxsteps:
+            busy = any(len(getattr(x.proto, "send_queue", ())) > 0 or getattr(x.proto, "triggered", False)
+                       for x in (self.c, self.s))
+            if not busy:
+                break
+            self.c.advance(step)
+            n += 1
+        self.collect()
+        return n
+
+    def handshake(self):
+        self.pump()
+        if self.c.proto.state != 3 or self.s.proto.state != 3:
+            raise RuntimeError("harness: pair handshake failed: c=%r s=%r c2s=%r s2c=%r esc=%r %r" % (
+                self.c.proto.state, self.s.proto.state, bytes(self.log["c2s"])[:300],
+                bytes(self.log["s2c"])[:300], self.c.escapes, self.s.escapes))
+        self.hs_len = {"c2s": len(self.log["c2s"]), "s2c": len(self.log["s2c"])}
+        return self
+
+    def escapes(self):
+        return list(self.c.escapes) + list(self.s.escapes)
